@@ -172,6 +172,9 @@ def r3_own_address(ctx, f, rep):
               facts={'callers': cs})
     # apply_many branches are decided by C01-R4 (reused here so that C09 stands alone)
     c01.r4_routing(ctx, f, _Rename(rep, 'C01-R4', 'C09-R3'))
+    # ... for every item of the batch: a loop that stops early (say, once the instance is defunct) silently drops the
+    # conflict winners and Down notices that follow (C01-R5 re-run)
+    c01.r5_state_transfer(ctx, f, _Rename(rep, 'C01-R5', 'C09-R3'))
     ht = f.fn('Foca::handle_timer')
     n = 0
     for p in ctx.paths(f, ht, 'ctor'):
@@ -300,6 +303,19 @@ def r4_inactive_payload(ctx, f, rep):
                 vs = q.cond_variants(f, c)
         r = p.ret
         val = r[5][0] if r[0] == 'agg' and r[3] == 'Ok' else None
+        if val is None and r[0] == 'call' and r[1] in calls and calls[r[1]]['res'] == 'core::result::Result::map':
+            # `handle_apply_summary(..).map(|()| update_is_active)`: the Ok value is what the closure returns - its capture
+            clo = calls[r[1]]['args'][1]
+            if clo[0] == 'agg' and clo[1] == 'closure' and len(clo[5]) == 1:
+                cps = [cp for cp in ctx.paths(f, f.fn(clo[2]), 'none') if cp.end == 'return']
+                rv = cps[0].ret if len(cps) == 1 else None
+                if rv is not None and rv[0] == 'load' and rv[1][0] == 'deref':
+                    rv = rv[1][1]           # a capture by reference, dereferenced
+                if rv is not None and not cps[0].calls() and q.upvar_of(f.fn(clo[2]), rv) is not None:
+                    val = clo[5][0]
+                    if val[0] == 'ref':     # ... whose value at the call is recorded with the call
+                        av = calls[r[1]].get('argvals') or []
+                        val = av[1][5][0] if len(av) > 1 and av[1][0] == 'agg' and av[1][5] else None
         n += 1
         if vs and vs & {'Lost', 'FailedCondition'}:
             rep.check(val == ('const', 'bool', 0, 'false'), 'C09-R4', au.nname, 'Lost/FailedCondition -> sender not active',
@@ -322,15 +338,16 @@ def r4_inactive_payload(ctx, f, rep):
             if c['kind'] == 'cond' and c.get('dty') == 'bool' and q.ok_payload_of(p, c['expr']) is not None:
                 active = q.cond_truth(c)
                 break
-        for j, e in enumerate(p.events[i0 + 1:], i0 + 1):
-            if e['kind'] != 'call':
+        for j, e in enumerate(p.events):
+            if e['kind'] != 'call' or j == i0:
                 continue
             consumer = e['res'] in ('Foca::apply_many', 'Foca::handle_custom_broadcasts', 'probe::Probe::receive_ack',
                                     'probe::Probe::receive_indirect_ack')
             reply = e['res'] == 'Foca::send_message' and q.variant_name(e['args'][2]) != 'TurnUndead'
             if consumer or reply:
                 n += 1
-                rep.check(active is True, 'C09-R4', hd.nname, '%s only for an active, non-superseded sender'
+                # (a consumer placed in front of the sender check sees the payload of Down and superseded senders too)
+                rep.check(j > i0 and active is True, 'C09-R4', hd.nname, '%s only for an active, non-superseded sender'
                           % (e['res'].split('::')[-1]), site=e['span'], construct='consumer:' + e['res'].split('::')[-1])
     rep.floor('C09-R4', n, 10, 'payload consumers in handle_data paths')
     # ... and a payload that was decoded but not consumed (inactive sender) is gone with the datagram
